@@ -183,6 +183,50 @@ def to_json(t):
     raise TypeError(repr(t))
 
 
+def _spell_str(x, rng, mode):
+    """a JSON string literal for x in which some characters are written as escapes (same decoded value)"""
+    out = ['"']
+    for ch in x:
+        o = ord(ch)
+        plain = json.dumps(ch, ensure_ascii=False)[1:-1]
+        esc = None
+        if o > 0xFFFF:
+            v = o - 0x10000
+            esc = "\\u%04x\\u%04x" % (0xD800 + (v >> 10), 0xDC00 + (v & 0x3FF))
+        else:
+            esc = "\\u%04X" % o if (o & 1) else "\\u%04x" % o
+        if mode == "at":
+            use = ch in "@.$"
+        elif mode == "all":
+            use = True
+        elif mode == "slash":
+            use = False
+            if ch == "/":
+                plain = "\\/"
+        else:
+            use = rng.chance(1, 6)
+        out.append(esc if use else plain)
+    out.append('"')
+    return "".join(out)
+
+
+def to_json_spelled(t, rng, mode="some", ws=False):
+    """the same tree as to_json(t), spelled differently: characters of keys / strings as \\uXXXX escapes (mode: some | at | all | slash),
+    optional insignificant white space between tokens.  A decoder must not see any difference."""
+    sp = (lambda: rng.choice(["", " ", "  ", "\t"])) if ws else (lambda: "")
+    def go(v):
+        if v is None or v is True or v is False or isinstance(v, Num):
+            return to_json(v)
+        if isinstance(v, str):
+            return _spell_str(v, rng, mode)
+        if isinstance(v, Obj):
+            return "{" + sp() + ",".join(sp() + _spell_str(k, rng, mode) + sp() + ":" + sp() + go(x) + sp() for k, x in v) + "}"
+        if isinstance(v, list):
+            return "[" + sp() + ",".join(sp() + go(e) + sp() for e in v) + "]"
+        raise TypeError(repr(v))
+    return go(t)
+
+
 def parse_json(text):
     """Independent ordered parser (python json, strict): duplicate keys kept, numbers as text."""
     def bad(x):
